@@ -11,7 +11,7 @@ package store
 // Core invariant (holds also inside a range extension) and full invariant of the lowest-collapsing store.
 //@ pred CLCore(s *CollapsingLowestDenseStore) := DCore(as(s, *DenseStore)) && s.maxNumBins >= 1 && s.maxNumBins <= 2147483647 && len(s.bins) <= s.maxNumBins
 //@ pred CLCollapsedShape(s *CollapsingLowestDenseStore) := s.isCollapsed ==> (s.count > 0.0 && len(s.bins) == s.maxNumBins && s.offset == s.minIndex && s.maxIndex - s.minIndex + 1 == s.maxNumBins)
-//@ pred CLInv(s *CollapsingLowestDenseStore) := CLCore(s) && CLCollapsedShape(s) && (s.count == 0.0 ==> DEmptyState(as(s, *DenseStore)) && !s.isCollapsed) && (s.count > 0.0 ==> s.minIndex <= s.maxIndex && DView(as(s, *DenseStore), s.maxIndex) > 0.0 && (!s.isCollapsed ==> DView(as(s, *DenseStore), s.minIndex) > 0.0))
+//@ pred CLInv(s *CollapsingLowestDenseStore) := CLCore(s) && CLCollapsedShape(s) && (s.count == 0.0 ==> DEmptyState(as(s, *DenseStore)) && !s.isCollapsed) && (s.count > 0.0 ==> s.minIndex <= s.maxIndex && DView(as(s, *DenseStore), s.maxIndex) > 0.0)
 
 //@ footprint CollapsingLowestDenseStore(s) := s, arr(s.bins)
 
@@ -45,8 +45,11 @@ package store
 //@   ensures window: s.maxIndex == newMaxIndex && s.minIndex == old(CLEdge(s, newMinIndex, newMaxIndex))
 //@   ensures collapsed: (newMaxIndex - newMinIndex + 1 > len(s.bins) ==> s.isCollapsed && s.offset == s.minIndex) && (newMaxIndex - newMinIndex + 1 <= len(s.bins) ==> s.isCollapsed == old(s.isCollapsed))
 //@   ensures view: forall k int :: DView(as(s, *DenseStore), k) == old(DFoldLow(as(s, *DenseStore), CLEdge(s, newMinIndex, newMaxIndex), k))
+//@   ensures exact: newMaxIndex - newMinIndex + 1 <= len(s.bins) ==> (forall k int :: DView(as(s, *DenseStore), k) == old(DView(as(s, *DenseStore), k)))
+//@   ensures keep-max: old(DView(as(s, *DenseStore), s.maxIndex)) > 0.0 ==> DView(as(s, *DenseStore), max(old(s.maxIndex), s.minIndex)) > 0.0
 //@   ensures alias: arr(s.bins) == old(arr(s.bins)) || fresh(arr(s.bins))
 //@   modifies s, arr(s.bins)
+//@   hint ASumPos(old(contents(s.bins)), 0, old(len(s.bins)), old(s.maxIndex - s.offset))
 //@   loop 1 invariant s.minIndex <= i && i <= max(newMinIndex, s.minIndex) && n == ASum(contents(s.bins), s.minIndex - s.offset, i - s.offset)
 //@   loop 1 decreases newMinIndex - i
 // sums of the entry-state array: whole = below window + window; cumulative weight at the edge
@@ -80,6 +83,8 @@ package store
 //@   ensures window: s.maxIndex == max(newMaxIndex, old(s.maxIndex)) && s.minIndex == max(min(newMinIndex, old(s.minIndex)), s.maxIndex - len(s.bins) + 1)
 //@   ensures collapsed: s.isCollapsed == (old(s.isCollapsed) || s.minIndex > min(newMinIndex, old(s.minIndex)))
 //@   ensures view: forall k int :: DView(as(s, *DenseStore), k) == DFoldLowOld(as(s, *DenseStore), s.minIndex, k)
+//@   ensures exact: !s.isCollapsed ==> (forall k int :: DView(as(s, *DenseStore), k) == old(DView(as(s, *DenseStore), k)))
+//@   ensures keep-max: old(s.count) > 0.0 ==> DView(as(s, *DenseStore), max(old(s.maxIndex), s.minIndex)) > 0.0
 //@   ensures alias: arr(s.bins) == old(arr(s.bins)) || fresh(arr(s.bins))
 //@   modifies s, arr(s.bins)
 //@   hint ASumZero(contents(s.bins), 0, len(s.bins))
@@ -91,3 +96,102 @@ package store
 //@   hint ASumZero(contents(s.bins), 0, DCumHi(as(s, *DenseStore), CLEdge(s, newMinIndex, newMaxIndex))), ASumEmpty(old(contents(s.bins)), 0, 0)
 // no extension needed (the range fits): the cumulative weight at the new minimum is the weight of that bin
 //@   hint ASumZero(old(contents(s.bins)), 0, old(DCumHi(as(s, *DenseStore), min(newMinIndex, s.minIndex))) - 1), ASumStep(old(contents(s.bins)), 0, old(DCumHi(as(s, *DenseStore), min(newMinIndex, s.minIndex))))
+
+//@ func CollapsingLowestDenseStore.normalize
+//@   serves C05
+//@   requires CLInv(s) && in32(index)
+//@   ensures CLCore(s) && CLShape(s) && DWindowIn(as(s, *DenseStore)) && s.count == old(s.count) && s.maxNumBins == old(s.maxNumBins)
+//@   ensures window: s.maxIndex == max(index, old(s.maxIndex)) && s.minIndex == max(min(index, old(s.minIndex)), s.maxIndex - len(s.bins) + 1) && s.minIndex <= s.maxIndex
+//@   ensures collapsed: s.isCollapsed == (old(s.isCollapsed) || s.minIndex > min(index, old(s.minIndex)))
+//@   ensures slot: result == max(index, s.minIndex) - s.offset && 0 <= result && result < len(s.bins)
+//@   ensures view: forall k int :: DView(as(s, *DenseStore), k) == DFoldLowOld(as(s, *DenseStore), s.minIndex, k)
+//@   ensures exact: !s.isCollapsed ==> (forall k int :: DView(as(s, *DenseStore), k) == old(DView(as(s, *DenseStore), k)))
+//@   ensures keep-max: old(s.count) > 0.0 ==> DView(as(s, *DenseStore), max(old(s.maxIndex), s.minIndex)) > 0.0
+//@   ensures alias: arr(s.bins) == old(arr(s.bins)) || fresh(arr(s.bins))
+//@   modifies s, arr(s.bins)
+//@   hint ASumZero(old(contents(s.bins)), 0, old(DCumHi(as(s, *DenseStore), s.minIndex)) - 1), ASumStep(old(contents(s.bins)), 0, old(DCumHi(as(s, *DenseStore), s.minIndex))), ASumEmpty(old(contents(s.bins)), 0, 0)
+
+// Adding: the previous content is folded at the (possibly higher) new edge and the weight lands on
+// max(index, edge). No weight is lost and the store never holds more than maxNumBins bins.
+//@ func CollapsingLowestDenseStore.AddWithCount
+//@   serves C05
+//@   requires CLInv(s) && in32(index) && count >= 0.0
+//@   ensures CLInv(s) && s.count == old(s.count) + count && s.maxNumBins == old(s.maxNumBins)
+//@   ensures bounded: len(s.bins) <= s.maxNumBins && (s.count > 0.0 ==> s.maxIndex - s.minIndex + 1 <= s.maxNumBins)
+//@   ensures edge: count > 0.0 ==> s.maxIndex == max(index, old(s.maxIndex)) && s.minIndex == max(min(index, old(s.minIndex)), s.maxIndex - len(s.bins) + 1)
+//@   ensures view: count > 0.0 ==> (forall k int :: DView(as(s, *DenseStore), k) == DFoldLowOld(as(s, *DenseStore), s.minIndex, k) + (k == max(index, s.minIndex) ? count : 0.0))
+//@   ensures noop: count == 0.0 ==> (forall k int :: DView(as(s, *DenseStore), k) == old(DView(as(s, *DenseStore), k)))
+//@   ensures alias: arr(s.bins) == old(arr(s.bins)) || fresh(arr(s.bins))
+//@   modifies s, arr(s.bins)
+//@   hint ASumUpdate(contents(s.bins), 0, len(s.bins), arrayIndex, s.bins[arrayIndex] + count)
+
+//@ func CollapsingLowestDenseStore.Add
+//@   serves C05
+//@   requires CLInv(s) && in32(index)
+//@   ensures CLInv(s) && s.count == old(s.count) + 1.0 && s.maxNumBins == old(s.maxNumBins)
+//@   ensures view: forall k int :: DView(as(s, *DenseStore), k) == DFoldLowOld(as(s, *DenseStore), s.minIndex, k) + (k == max(index, s.minIndex) ? 1.0 : 0.0)
+//@   ensures alias: arr(s.bins) == old(arr(s.bins)) || fresh(arr(s.bins))
+//@   modifies s, arr(s.bins)
+
+//@ func CollapsingLowestDenseStore.AddBin
+//@   serves C05
+//@   requires CLInv(s) && in32(bin.index) && bin.count >= 0.0
+//@   ensures CLInv(s) && s.count == old(s.count) + bin.count && s.maxNumBins == old(s.maxNumBins)
+//@   ensures view: bin.count > 0.0 ==> (forall k int :: DView(as(s, *DenseStore), k) == DFoldLowOld(as(s, *DenseStore), s.minIndex, k) + (k == max(bin.index, s.minIndex) ? bin.count : 0.0))
+//@   ensures alias: arr(s.bins) == old(arr(s.bins)) || fresh(arr(s.bins))
+//@   modifies s, arr(s.bins)
+
+//@ func CollapsingLowestDenseStore.Copy
+//@   serves C05 C14
+//@   requires CLInv(s)
+//@   ensures result != nil && fresh(result) && is(result, *CollapsingLowestDenseStore) && fresh(arr(as(result, *CollapsingLowestDenseStore).bins))
+//@   ensures CLInv(as(result, *CollapsingLowestDenseStore)) && as(result, *CollapsingLowestDenseStore).count == s.count && as(result, *CollapsingLowestDenseStore).maxNumBins == s.maxNumBins && as(result, *CollapsingLowestDenseStore).isCollapsed == s.isCollapsed
+//@   ensures as(result, *CollapsingLowestDenseStore).minIndex == s.minIndex && as(result, *CollapsingLowestDenseStore).maxIndex == s.maxIndex
+//@   ensures view: forall k int :: DView(as(result, *DenseStore), k) == DView(as(s, *DenseStore), k)
+//@   hint ASumShift(contents(s.bins), contents(bins), 0, len(s.bins), 0)
+
+// The content of another (lowest-collapsing) store folded at edge e.
+//@ vfun DFoldLowOf(o *DenseStore, e int, k int) real := k < e ? 0.0 : (k == e ? DCum(o, e) : DView(o, k))
+// weight of o strictly below the edge e (o's window is [o.minIndex, o.maxIndex])
+//@ fun CLBelow(o *DenseStore, e int) real := ASum(contents(o.bins), o.minIndex - o.offset, max(o.minIndex, min(e, o.maxIndex + 1)) - o.offset)
+
+// Merging: no weight is lost, the argument is unchanged, the result stays within maxNumBins bins; merging a store
+// of the same kind places every bin of the argument on max(index, edge) (folded like the receiver's own content).
+//@ func CollapsingLowestDenseStore.MergeWith
+//@   serves C05 C02
+//@   requires CLInv(s) && SInv(other) && disjoint(s, other)
+//@   ensures CLInv(s) && SInv(other) && s.maxNumBins == old(s.maxNumBins)
+//@   ensures total: s.count == old(s.count) + old(STot(other))
+//@   ensures arg: STot(other) == old(STot(other)) && (forall k int :: SView(other, k) == old(SView(other, k)))
+//@   ensures same-kind: is(other, *CollapsingLowestDenseStore) && old(STot(other)) > 0.0 ==> (forall k int :: DView(as(s, *DenseStore), k) == DFoldLowOld(as(s, *DenseStore), s.minIndex, k) + DFoldLowOf(as(other, *DenseStore), s.minIndex, k))
+//@   ensures edge: is(other, *CollapsingLowestDenseStore) && old(STot(other)) > 0.0 ==> s.maxIndex == max(old(s.maxIndex), as(other, *DenseStore).maxIndex) && s.minIndex == max(min(old(s.minIndex), as(other, *DenseStore).minIndex), s.maxIndex - len(s.bins) + 1)
+//@   ensures alias: arr(s.bins) == old(arr(s.bins)) || fresh(arr(s.bins))
+//@   ensures stable: footprintStable(other)
+//@   modifies s, arr(s.bins), footprint(other)
+//@   foreach 1 invariant !stopped && CLInv(s) && SInv(other) && disjoint(s, other) && s.maxNumBins == old(s.maxNumBins) && (arr(s.bins) == old(arr(s.bins)) || fresh(arr(s.bins))) && footprintStable(other)
+//@   foreach 1 invariant s.count == old(s.count) + SetSum(old(SViewArr(other)), visited) && (forall k int :: visited[k] ==> SView(other, k) > 0.0)
+//@   foreach 1 invariant STot(other) == old(STot(other)) && (forall k int :: SView(other, k) == old(SView(other, k)))
+//@   hint SViewNonneg(other), SetSumEmpty(old(SViewArr(other))), SetSumIsTot(old(SViewArr(other)), visited), STotIsTot(other), TotExt(SViewArr(other), old(SViewArr(other))), SetSumInsert(old(SViewArr(other)), visited$pre, $cbarg0)
+//@   hint ASumZero(old(contents(s.bins)), 0, old(DCumHi(as(s, *DenseStore), s.minIndex)) - 1), ASumStep(old(contents(s.bins)), 0, old(DCumHi(as(s, *DenseStore), s.minIndex))), ASumEmpty(old(contents(s.bins)), 0, 0)
+// loop 1: indexes of o below the receiver's edge are folded into the receiver's lowest bin
+//@   loop 1 invariant o == as(other, *CollapsingLowestDenseStore) && CLInv(o) && o.count > 0.0 && o.count == old(o.count) && (forall k int :: DView(as(o, *DenseStore), k) == old(DView(as(o, *DenseStore), k))) && footprintStable(other) && arr(s.bins) != arr(o.bins)
+//@   loop 1 invariant o.minIndex <= idx && idx <= o.maxIndex + 1 && idx <= max(o.minIndex, s.minIndex)
+//@   loop 1 invariant DRanges(as(s, *DenseStore)) && DNonneg(as(s, *DenseStore)) && DWindowIn(as(s, *DenseStore)) && DZeroOutside(as(s, *DenseStore)) && CLShape(s) && s.maxNumBins == old(s.maxNumBins) && s.maxNumBins >= 1 && s.maxNumBins <= 2147483647 && len(s.bins) <= s.maxNumBins && s.count == old(s.count) && (arr(s.bins) == old(arr(s.bins)) || fresh(arr(s.bins)))
+//@   loop 1 invariant s.maxIndex == max(old(s.maxIndex), o.maxIndex) && s.minIndex == max(min(old(s.minIndex), o.minIndex), s.maxIndex - len(s.bins) + 1) && s.isCollapsed == (old(s.isCollapsed) || s.minIndex > min(o.minIndex, old(s.minIndex)))
+//@   loop 1 invariant DSum(as(s, *DenseStore)) == old(s.count) + ASum(contents(o.bins), o.minIndex - o.offset, idx - o.offset)
+//@   loop 1 invariant forall k int :: DView(as(s, *DenseStore), k) == DFoldLowOld(as(s, *DenseStore), s.minIndex, k) + (k == s.minIndex ? ASum(contents(o.bins), o.minIndex - o.offset, idx - o.offset) : 0.0)
+//@   loop 1 invariant old(s.count) > 0.0 ==> DView(as(s, *DenseStore), max(old(s.maxIndex), s.minIndex)) > 0.0
+// loop 2: the remaining indexes of o (all but the last) are added in place
+//@   loop 2 invariant o == as(other, *CollapsingLowestDenseStore) && CLInv(o) && o.count > 0.0 && o.count == old(o.count) && (forall k int :: DView(as(o, *DenseStore), k) == old(DView(as(o, *DenseStore), k))) && footprintStable(other) && arr(s.bins) != arr(o.bins)
+//@   loop 2 invariant max(o.minIndex, min(s.minIndex, o.maxIndex + 1)) <= idx && idx <= o.maxIndex + 1 && (idx <= o.maxIndex ==> s.minIndex <= idx)
+//@   loop 2 invariant DRanges(as(s, *DenseStore)) && DNonneg(as(s, *DenseStore)) && DWindowIn(as(s, *DenseStore)) && DZeroOutside(as(s, *DenseStore)) && CLShape(s) && s.maxNumBins == old(s.maxNumBins) && s.maxNumBins >= 1 && s.maxNumBins <= 2147483647 && len(s.bins) <= s.maxNumBins && s.count == old(s.count) && (arr(s.bins) == old(arr(s.bins)) || fresh(arr(s.bins)))
+//@   loop 2 invariant s.maxIndex == max(old(s.maxIndex), o.maxIndex) && s.minIndex == max(min(old(s.minIndex), o.minIndex), s.maxIndex - len(s.bins) + 1) && s.isCollapsed == (old(s.isCollapsed) || s.minIndex > min(o.minIndex, old(s.minIndex)))
+//@   loop 2 invariant DSum(as(s, *DenseStore)) == old(s.count) + ASum(contents(o.bins), o.minIndex - o.offset, idx - o.offset)
+//@   loop 2 invariant forall k int :: DView(as(s, *DenseStore), k) == DFoldLowOld(as(s, *DenseStore), s.minIndex, k) + (k == s.minIndex ? CLBelow(as(o, *DenseStore), s.minIndex) : 0.0) + ((s.minIndex <= k && o.minIndex <= k && k < idx) ? DView(as(o, *DenseStore), k) : 0.0)
+//@   loop 2 invariant old(s.count) > 0.0 ==> DView(as(s, *DenseStore), max(old(s.maxIndex), s.minIndex)) > 0.0
+//@   hint ASumUpdate(contents(s.bins), 0, len(s.bins), 0, s.bins[0] + o.bins[idx - o.offset]), ASumUpdate(contents(s.bins), 0, len(s.bins), idx - s.offset, s.bins[idx - s.offset] + o.bins[idx - o.offset])
+//@   hint ASumStep(contents(o.bins), o.minIndex - o.offset, idx - o.offset + 1), ASumEmpty(contents(o.bins), o.minIndex - o.offset, o.minIndex - o.offset), ASumStep(contents(o.bins), o.minIndex - o.offset, idx - o.offset)
+//@   hint ASumWindow(contents(o.bins), 0, len(o.bins), o.minIndex - o.offset, o.maxIndex - o.offset)
+// cumulative weight of o at the edge = weight below the edge + the edge bin
+//@   hint ASumSplit(contents(o.bins), 0, o.minIndex - o.offset, DCumHi(as(o, *DenseStore), s.minIndex)), ASumZero(contents(o.bins), 0, o.minIndex - o.offset), ASumZero(contents(o.bins), 0, DCumHi(as(o, *DenseStore), s.minIndex)), ASumStep(contents(o.bins), o.minIndex - o.offset, DCumHi(as(o, *DenseStore), s.minIndex)), ASumEmpty(contents(o.bins), 0, 0)
+//@   hint ASumSplit(contents(o.bins), o.minIndex - o.offset, o.maxIndex - o.offset + 1, DCumHi(as(o, *DenseStore), s.minIndex)), ASumZero(contents(o.bins), o.maxIndex - o.offset + 1, DCumHi(as(o, *DenseStore), s.minIndex))
